@@ -1093,6 +1093,9 @@ class OpsMixin:
         # super()
         if isinstance(node.func, ast.Attribute) and isinstance(node.func.value, ast.Call) and isinstance(node.func.value.func, ast.Name) and node.func.value.func.id == "super":
             return self.super_call(node, env)
+        special = self.char_class_form(node, env)
+        if special is not None:
+            return special
         fn = self.eval(node.func, env)
         args = []
         for a in node.args:
@@ -1111,6 +1114,37 @@ class OpsMixin:
                 kwargs[kw.arg] = self.eval(kw.value, env)
         self.lineno = node.lineno
         return self.call_value(fn, args, kwargs)
+
+    def char_class_form(self, node, env):
+        """any(c not in ALPHABET for c in S) / all(c in ALPHABET for c in S) with S a symbolic string and ALPHABET a
+        concrete string: decided as membership of S in ALPHABET* (exact)"""
+        if not (isinstance(node.func, ast.Name) and node.func.id in ("any", "all") and len(node.args) == 1 and isinstance(node.args[0], ast.GeneratorExp)):
+            return None
+        g = node.args[0]
+        if len(g.generators) != 1 or g.generators[0].ifs or not isinstance(g.generators[0].target, ast.Name):
+            return None
+        elt = g.elt
+        if not (isinstance(elt, ast.Compare) and len(elt.ops) == 1 and isinstance(elt.ops[0], (ast.In, ast.NotIn)) and isinstance(elt.left, ast.Name) and elt.left.id == g.generators[0].target.id):
+            return None
+        src = self.resolve(self.eval(g.generators[0].iter, env))
+        if not isinstance(src, SStr):
+            return None
+        alpha = self.resolve(self.eval(elt.comparators[0], env))
+        if not isinstance(alpha, (str, bytes)):
+            return None
+        chars = alpha if isinstance(alpha, str) else alpha.decode("latin-1")
+        if not chars:
+            inside = z3.Length(src.e) == 0
+        else:
+            inside = z3.InRe(src.e, z3.Star(z3.Union(*[z3.Re(c) for c in sorted(set(chars))]) if len(set(chars)) > 1 else z3.Re(chars[0])))
+        is_in = isinstance(elt.ops[0], ast.In)
+        if node.func.id == "all":
+            res = inside if is_in else None
+        else:
+            res = z3.Not(inside) if not is_in else None
+        if res is None:
+            return None
+        return self.wrap_bool(res)
 
     def super_call(self, node, env):
         attr = node.func.attr
